@@ -47,7 +47,7 @@ import (
 	"verif/harness/lib"
 )
 
-const recWatchdog = 2 * time.Second
+const recWatchdog = 10 * time.Second // a real hang never returns; a loaded machine can stall a call for seconds
 
 // ---- the case ----------------------------------------------------------------------------------
 
@@ -129,17 +129,23 @@ func cyclicType(rt reflect.Type, on []reflect.Type) bool {
 
 // structsOf collects the struct types reachable from rt (bounded).
 func structsOf(rt reflect.Type, seen map[reflect.Type]bool, out *[]reflect.Type) {
-	if rt == nil || seen[rt] || len(*out) > 12 {
+	structsUpTo(rt, seen, out, 12)
+}
+
+// structsUpTo is structsOf with its bound given (the recomposer itself registers every struct type
+// below the target: the predicates need them all).
+func structsUpTo(rt reflect.Type, seen map[reflect.Type]bool, out *[]reflect.Type, max int) {
+	if rt == nil || seen[rt] || len(*out) > max {
 		return
 	}
 	seen[rt] = true
 	switch rt.Kind() {
 	case reflect.Ptr, reflect.Slice, reflect.Array, reflect.Map:
-		structsOf(rt.Elem(), seen, out)
+		structsUpTo(rt.Elem(), seen, out, max)
 	case reflect.Struct:
 		*out = append(*out, rt)
 		for i := 0; i < rt.NumField(); i++ {
-			structsOf(rt.Field(i).Type, seen, out)
+			structsUpTo(rt.Field(i).Type, seen, out, max)
 		}
 	}
 }
@@ -1210,7 +1216,7 @@ func namesEmptyType(v any, ck string, depth int) bool {
 // pkgpath/name (struct literal types are all "/").
 func sameFullName(rt reflect.Type) bool {
 	var sts []reflect.Type
-	structsOf(rt, map[reflect.Type]bool{}, &sts)
+	structsUpTo(rt, map[reflect.Type]bool{}, &sts, 1000)
 	seen := map[string]reflect.Type{}
 	for _, st := range sts {
 		full := st.PkgPath() + "/" + st.Name()
@@ -1263,7 +1269,7 @@ func knownFault(c *recCase, tree any, def bool) string {
 	if ctx == nil {
 		ctx = c.rt
 	}
-	structsOf(ctx, map[reflect.Type]bool{}, &sts)
+	structsUpTo(ctx, map[reflect.Type]bool{}, &sts, 1000)
 	fitsCtx.ck, fitsCtx.named = c.ck, map[string][]reflect.Type{}
 	for _, st := range sts {
 		fitsCtx.named[st.Name()] = append(fitsCtx.named[st.Name()], st)
